@@ -19,12 +19,15 @@ Definition ap_plain (ap : apmode) : bool := match ap with APRef _ => false | _ =
 
 Inductive tvalid_e : otree -> jval -> Prop :=
 | te_leaf o v : jx_valid o v -> tvalid_e (OLeaf o) (JLit v)
+| te_empty nu v : tvalid_e (OLeaf (mk_oasx None None None None None None None nu)) v     (* a schema without keywords admits every value *)
 | te_any_null alts : tvalid_e (OAnyOf alts true) (JLit w_null_lit)
 | te_any alts nu a v : In a alts -> tvalid_e a v -> tvalid_e (OAnyOf alts nu) v
 | te_arr_null items mn mx : tvalid_e (OArr items mn mx true) (JLit w_null_lit)
 | te_obj_null props req ap : tvalid_e (OObj props req ap true) (JLit w_null_lit)
 | te_ref_null n : tvalid_e (ORef n true) (JLit w_null_lit)
 | te_ref n nu t v : plookup n comps = Some t -> tvalid_e t v -> tvalid_e (ORef n nu) v
+| te_choice_null names : tvalid_e (OChoice names true) (JLit w_null_lit)
+| te_choice names nu n t v : In n names -> plookup n comps = Some t -> tvalid_e t v -> tvalid_e (OChoice names nu) v
 | te_arr items mn mx nu vs :
     (forall m, mn = Some m -> m <= Z.of_nat (length vs)) -> (forall m, mx = Some m -> Z.of_nat (length vs) <= m) ->
     (forall v, In v vs -> items = [] \/ exists it, In it items /\ tvalid_e it v) ->
@@ -54,6 +57,11 @@ Fixpoint example_e (fuel : nat) (n : snode) : option jval :=
     | SArr items _ _ _ => option_map JArr (all_some (map (example_e f) items))
     | SObj ms _ _ => option_map JObj (all_some (map (fun m => option_map (fun v => (fst m, v)) (example_e f (snd (snd m)))) ms))
     | SRef r _ => match plookup r types with Some t => example_e f t | None => None end
+    | SChoice names _ => match names with
+                         | r :: _ => match plookup r types with Some t => example_e f t | None => None end      (* the first alternative *)
+                         | [] => None
+                         end
+    | SRefLit ex _ _ => Some (JLit ex)
     end
   end.
 End Env.
